@@ -29,13 +29,18 @@ func solverArgs(name string) []string {
 	case "z3", "z3-new":
 		return []string{name, "-in", "-smt2"}
 	case "cvc5":
-		return []string{"cvc5", "--incremental", "--lang=smt2", "--produce-models", "--bv-print-consts-as-indexed-symbols=false"}
+		return []string{"cvc5", "--incremental", "--lang=smt2", "--produce-models"}
+	case "cvc5-int":
+		return []string{"cvc5", "--incremental", "--lang=smt2", "--produce-models", "--solve-bv-as-int=sum"}
 	}
 	return []string{name}
 }
 
-func StartSolver(name string, log io.Writer) (*Solver, error) {
+func StartSolver(name string, log io.Writer, timeout time.Duration) (*Solver, error) {
 	a := solverArgs(name)
+	if strings.HasPrefix(name, "cvc5") && timeout > 0 {
+		a = append(a, fmt.Sprintf("--tlimit-per=%d", timeout.Milliseconds()))
+	}
 	cmd := exec.Command(a[0], a[1:]...)
 	in, err := cmd.StdinPipe()
 	if err != nil {
@@ -50,7 +55,7 @@ func StartSolver(name string, log io.Writer) (*Solver, error) {
 		return nil, err
 	}
 	s := &Solver{name: name, cmd: cmd, in: in, out: bufio.NewReaderSize(out, 1<<20), log: log}
-	if name == "cvc5" {
+	if strings.HasPrefix(name, "cvc5") {
 		s.Send("(set-logic ALL)\n")
 	} else {
 		s.Send("(set-option :produce-models true)\n")
@@ -138,7 +143,7 @@ func (s *Solver) CheckSat(timeout time.Duration) string {
 	t0 := time.Now()
 	defer func() { s.Time += time.Since(t0); s.Querys++ }()
 	pre := ""
-	if s.name != "cvc5" {
+	if !strings.HasPrefix(s.name, "cvc5") {
 		pre = fmt.Sprintf("(set-option :timeout %d)\n", timeout.Milliseconds())
 	}
 	lines, err := s.roundTrip(pre+"(check-sat)\n", timeout+10*time.Second)
